@@ -27,3 +27,31 @@ Theorem C19_legitimate_request_accepted : forall s r a data,
   parse_dm14_decision s r data = Accept.
 Proof. exact legitimate_request_accepted. Qed.
 Print Assumptions C19_legitimate_request_accepted.
+
+(* ---------------------------------------------------------------- state-machine level (theories/Dm14Srv.v: DM14Server +
+   the serving half of MemoryAccess + the CA's subscriber list, tied to /repo by operation-sequence correspondence) *)
+From J1939 Require Import Dm14Srv.
+From J1939P Require Import Dm14SrvProofs.
+
+(* T19.2/T19.3: while a transaction with requester r runs (from its first DM14 until the closing DM14 has been
+   received), ANY message from another source address — any PGN, any data, well-formed or not, whatever callbacks are
+   registered in whatever order and multiplicity — leaves EVERY field of the server, of the facade and the subscriber
+   list unchanged, reaches no application callback, and the only frames it can cause are DM15 addressed to it *)
+Theorem C19_intruder_does_not_disturb : forall c s r x pgn data,
+  running s r -> x <> r -> quiet s x (deliver c s pgn x data).
+Proof. exact intruder_does_not_disturb. Qed.
+Print Assumptions C19_intruder_does_not_disturb.
+
+Theorem C19_intruder_outputs : forall c s r x pgn data,
+  running s r -> x <> r ->
+  let '(s', os, e) := deliver c s pgn x data in
+  s' = s /\ forall o, In o os -> match o with SSend pf dest _ _ => pf = 216 /\ dest = Z.land x 255 | _ => False end.
+Proof. exact intruder_outputs. Qed.
+Print Assumptions C19_intruder_outputs.
+
+(* a request of the running requester itself for ANOTHER pointer is not served in its place *)
+Theorem C19_other_pointer_not_served : forall c s r a data,
+  running s r -> v_addr s = Some a -> zlist_eqb a (py_slice data 2 (v_length s - 2)) = false ->
+  quiet s r (deliver c s PGN_DM14 r data).
+Proof. exact other_pointer_not_served. Qed.
+Print Assumptions C19_other_pointer_not_served.
